@@ -63,7 +63,8 @@ fn fb(x: f32) -> String { format!("{}", x.to_bits()) }
 fn ptb(p: Point) -> String { format!("{} {}", fb(p.x), fb(p.y)) }
 
 /// print a path; cubics get the quads lyon produces under transform `t` (as apply_path computes them)
-pub fn fmt_path(p: &Path, t: &Transform) -> String {
+pub fn fmt_path(p: &Path, t: &Transform) -> String { fmt_path_opt(p, t, true) }
+pub fn fmt_path_opt(p: &Path, t: &Transform, with_quads: bool) -> String {
     let mut s = format!("P {} {}", if p.winding == Winding::NonZero { 0 } else { 1 }, p.ops.len());
     let mut cur: Option<Point> = None;
     let mut first: Option<Point> = None;
@@ -90,9 +91,9 @@ pub fn fmt_path(p: &Path, t: &Transform) -> String {
                 if cur.is_none() { cur = Some(ta); first = Some(ta); }
                 let seg = CubicBezierSegment { from: cur.unwrap(), ctrl1: ta, ctrl2: tb, to: td };
                 let mut quads = Vec::new();
-                seg.for_each_quadratic_bezier(0.01, &mut |q| {
+                if with_quads { seg.for_each_quadratic_bezier(0.01, &mut |q| {
                     quads.push(format!("{} {} {}", ptb(q.from), ptb(q.ctrl), ptb(q.to)));
-                });
+                }); }
                 s += &format!(" C {} {} {} K {}", ptb(a), ptb(b), ptb(d), quads.len());
                 for q in quads { s += " "; s += &q; }
                 cur = Some(td);
